@@ -76,11 +76,9 @@ theorem zipLoop_sound (sig : Bytes) : ∀ (n : Nat) (raw : Bytes) (off : Nat), z
     verdict) implies that the marker occurs at a name position of the archive -/
 theorem verdict_implies_marker (raw sig : Bytes) (mso : Bool) (h : zipContains raw sig mso = some true) :
     AtNamePos raw sig := by
-  simp only [zipContains] at h
-  by_cases h0 : raw.length < 0x1E
-  · simp only [h0, ↓reduceIte] at h; cases h
-  · simp only [h0, ↓reduceIte] at h
-    by_cases h1 : hasPrefix (raw.drop 0x1E) sig = true
+  obtain ⟨h0, _, h⟩ := zipContains_true raw sig mso h
+  simp only [zipWalk] at h
+  · by_cases h1 : hasPrefix (raw.drop 0x1E) sig = true
     · exact ⟨30, h1, Or.inl rfl⟩
     · simp only [h1, Bool.false_eq_true, ↓reduceIte] at h
       by_cases h2 : (mso && !(msoSkipFiles.any fun sf => hasPrefix (raw.drop 0x1E) sf)) = true
@@ -115,11 +113,11 @@ theorem verdict_implies_marker (raw sig : Bytes) (mso : Bool) (h : zipContains r
 
 /-- **C19 (forward, first entry)**: an archive whose first entry name starts with the
     marker (at offset 30, as every zip writer places it) is accepted -/
-theorem first_entry_marker (raw sig : Bytes) (mso : Bool) (hl : 30 ≤ raw.length)
+theorem first_entry_marker (raw sig : Bytes) (mso : Bool) (hl : 30 ≤ raw.length) (hpk : hasPrefix raw pk34 = true)
     (h : hasPrefix (raw.drop 30) sig = true) : zipContains raw sig mso = some true := by
-  unfold zipContains
-  have : ¬ raw.length < 0x1E := by omega
-  simp only [this, ↓reduceIte, h]
+  rw [zipContains_of_header raw sig mso hl hpk]
+  unfold zipWalk
+  simp only [h, ↓reduceIte]
 
 def kManifest : Bytes := [77, 69, 84, 65, 45, 73, 78, 70, 47, 77, 65, 78, 73, 70, 69, 83, 84, 46, 77, 70]
 
@@ -127,11 +125,12 @@ def kManifest : Bytes := [77, 69, 84, 65, 45, 73, 78, 70, 47, 77, 65, 78, 73, 70
 theorem jar_is_manifest_check : Gen.d_Jar = .expr (.prim (.zipContains kManifest false)) := by decide
 
 /-- JAR: first entry `META-INF/MANIFEST.MF` ⇒ the `Jar` check accepts -/
-theorem jar_forward (raw : Bytes) (hl : 30 ≤ raw.length) (h : hasPrefix (raw.drop 30) kManifest = true) :
+theorem jar_forward (raw : Bytes) (hl : 30 ≤ raw.length) (hpk : hasPrefix raw pk34 = true)
+    (h : hasPrefix (raw.drop 30) kManifest = true) :
     Cust.evalExpr Gen.d_Jar raw = some true := by
   rw [jar_is_manifest_check]
   simp only [Cust.evalExpr, BExp.eval, Prim.eval]
-  exact first_entry_marker raw kManifest false hl h
+  exact first_entry_marker raw kManifest false hl hpk h
 
 def mimeZip : Bytes := [97, 112, 112, 108, 105, 99, 97, 116, 105, 111, 110, 47, 122, 105, 112]
 
@@ -207,16 +206,16 @@ theorem zipLoop_chain (raw sig : Bytes) : ∀ (n fuel p : Nat), Chain raw sig p 
     first signature at or after offset `compressedSize + 49`; from its name the marker is reached
     at once or through at most four further hops: then `zipContains` answers true -/
 theorem zipContains_forward (raw sig : Bytes) (mso : Bool) (nh : Nat)
-    (hlen : 0x1E ≤ raw.length)
+    (hlen : 0x1E ≤ raw.length) (hpk : hasPrefix raw pk34 = true)
     (hmso : mso = true → msoSkipFiles.any (fun sf => hasPrefix (raw.drop 0x1E) sf) = true)
     (hso : 0x1E + (u32le raw 18 + 49) % 4294967296 + nh ≤ raw.length)
     (hidx : indexOf pk34 (raw.drop ((u32le raw 18 + 49) % 4294967296)) = some nh)
     (hfin : hasPrefix (raw.drop (0x1E + (u32le raw 18 + 49) % 4294967296 + nh)) sig = true ∨
       ∃ n, n ≤ 4 ∧ Chain raw sig (0x1E + (u32le raw 18 + 49) % 4294967296 + nh) n) :
     zipContains raw sig mso = some true := by
-  unfold zipContains
-  have l0 : ¬ (raw.length < 0x1E) := by omega
-  simp only [l0, ↓reduceIte]
+  rw [zipContains_of_header raw sig mso hlen hpk]
+  unfold zipWalk
+  simp only
   by_cases hp0 : hasPrefix (raw.drop 0x1E) sig = true
   · simp [hp0]
   · simp only [hp0, Bool.false_eq_true, ↓reduceIte]
